@@ -9,7 +9,7 @@ C3 == {"A", "B", "C"}
 
 \* full alphabet (simulation)
 Full(Cs) ==
-       {Op("SSTORE", "-", k, v, 0) : k \in {"0", "1"}, v \in {"0", "1", "acc"}}
+       {Op("SSTORE", "-", k, v, 0) : k \in {"0", "1"}, v \in {"0", "1", "acc", "w1", "w2"}}
   \cup {Op("SLOAD", "-", k, "-", 0) : k \in {"0", "1"}}
   \cup {Op("SETACC", "-", "-", v, 0) : v \in {"0", "1", "2"}}
   \cup Plain({"LOG", "CALLER", "ADDRESS", "CALLVALUE", "CDLOAD", "RDCOPY", "RETURN", "REVERT", "INVALID", "BURN"})
@@ -17,6 +17,8 @@ Full(Cs) ==
   \cup {Op("CALLCODE", t, "-", "-", val) : t \in Cs \cup {"N", "P2", "P6", "PFE"}, val \in {0, 1}}
   \cup {Op("DELEGATECALL", t, "-", "-", 0) : t \in Cs \cup {"N", "P4", "P8", "PFE"}}
   \cup {Op("STATICCALL", t, "-", "-", 0) : t \in Cs \cup {"N", "P2", "P3", "PFE"}}
+  \cup {Op(c, t, w, "-", 0) : c \in {"CALL", "CALLCODE", "DELEGATECALL", "STATICCALL"}, t \in Cs, w \in {"32", "64"}}
+  \cup {Op(c, t, "64", "-", 0) : c \in {"CALL", "CALLCODE", "DELEGATECALL", "STATICCALL"}, t \in {"N", "P2", "P4", "P6", "P8"}}
   \cup {Op("CREATE", t, "-", "-", val) : t \in Cs, val \in {0, 1}}
   \cup {Op("CREATE2", t, "-", "-", 0) : t \in Cs}
   \cup {Op("SELFDESTRUCT", t, "-", "-", 0) : t \in {"S", "N", "self"}}
@@ -34,6 +36,14 @@ Creation ==
         Op("CALL", "B", "-", "-", 0), Op("SELFDESTRUCT", "S", "-", "-", 0), Op("SELFDESTRUCT", "self", "-", "-", 0),
         Op("CALL", "PFE", "-", "-", 1), Op("CALL", "P6", "-", "-", 0)}
   \cup Plain({"ADDRESS", "RETURN", "REVERT", "BURN"})
+\* output window of the CALL family x outcome of the callee (return / revert with payload / failure / no code / precompile)
+Window ==
+       {Op("DELEGATECALL", "B", "64", "-", 0), Op("CALL", "B", "32", "-", 0), Op("STATICCALL", "B", "64", "-", 0),
+        Op("CALLCODE", "B", "64", "-", 0), Op("CALL", "P4", "64", "-", 0), Op("DELEGATECALL", "P6", "32", "-", 0),
+        Op("STATICCALL", "N", "64", "-", 0), Op("SSTORE", "-", "0", "w1", 0), Op("SSTORE", "-", "1", "w2", 0),
+        Op("SETACC", "-", "-", "1", 0)}
+  \cup Plain({"RETURN", "REVERT", "INVALID"})
+
 \* recursion into the depth limit (Entry = "tramp")
 Deep ==
        {Op("CALL", "A", "-", "-", 0), Op("CALL", "B", "-", "-", 1), Op("DELEGATECALL", "A", "-", "-", 0), Op("STATICCALL", "A", "-", "-", 0),
